@@ -235,13 +235,26 @@ def parse_rvalue(s):
             names.append(nm.strip())
             ops.append(parse_operand(val))
         return ('aggregate', 'adt', path, ops, names)
-    m = re.match(r'^([\w:<>\[\]&\', ;()\-*=]+?)\((.*)\)$', s, re.S)
-    if m:
-        try:
-            ops = [parse_operand(x) for x in split_top(m.group(2))]
-            return ('aggregate', 'adt', m.group(1).strip(), ops, None)
-        except MirParseError:
-            pass
+    if s.endswith(')'):
+        # tuple-like ADT constructor: the argument list is the parenthesis group that closes at the end
+        depth = 0
+        k = None
+        for i in range(len(s) - 1, -1, -1):
+            c = s[i]
+            if c == ')':
+                depth += 1
+            elif c == '(':
+                depth -= 1
+                if depth == 0:
+                    k = i
+                    break
+        if k is not None and k > 0 and re.match(r'^[\w:<>\[\]&\', ;()\-*=]+$', s[:k]):
+            try:
+                inner = s[k + 1:-1]
+                ops = [parse_operand(x) for x in split_top(inner)] if inner.strip() else []
+                return ('aggregate', 'adt', s[:k].strip(), ops, None)
+            except MirParseError:
+                pass
     if re.match(r'^[\w:<>\[\]&\', ;()\-*=]+$', s) and '::' in s:
         return ('aggregate', 'adt', s, [], None)
     return ('raw', s)
